@@ -6,6 +6,7 @@
 // Commands that do not apply (empty slot, moved-from source ...) are skipped, so that removing commands
 // while shrinking always leaves a valid history.
 #pragma once
+#include <omp.h>
 #include "dense.h"
 #include "engine.h"
 #include "LinearAlgebra/vector.h"
@@ -38,7 +39,9 @@ struct VecT {
     {
         Rnd r(seed);
         Model m;
-        m.v.resize(1 + size % 12);
+        // mostly tiny; one in twenty-five above the size at which Vector switches its copies to OpenMP (n > 10'000), with
+        // lengths that are not multiples of the team size (the machine runs with three threads, see runObjectsCase)
+        m.v.resize(size % 25 == 7 ? 10001 + size % 7 : 1 + size % 12);
         for (auto& x : m.v)
             x = r.normal();
         return m;
@@ -711,6 +714,8 @@ inline Outcome runObjectsCase(const KV& c)
 {
     const int kind = (int)c.getI("kind");
     auto cmds      = c.getVI("cmds");
+    // copies of long vectors / matrices may use OpenMP: three threads (a team size that does not divide the lengths used)
+    omp_set_num_threads(3);
     switch (kind) {
     case 0:
         return runMachine<VecT>(cmds, "Vector");
